@@ -76,6 +76,7 @@ class Gen:
         self.fam_pool = []   # (family index, nversions)
         self.fn_counter = 0
         self.helpers = []    # helper Rust items (default fns, ctor structs)
+        self.abi_ctx = False # while generating an abi-writable family: nest only abi-writable families
 
     # -- random type expressions -------------------------------------------------
     def rand_prim(self, names=None):
@@ -99,8 +100,8 @@ class Gen:
             return t
         if roll < 0.58 and allow_pool and self.pool:
             return r.choice(self.pool)
-        if roll < 0.62 and allow_fam and self.fam_pool:
-            j, n = r.choice(self.fam_pool)
+        if roll < 0.62 and allow_fam and [x for x in self.fam_pool if (not self.abi_ctx or self.families[x[0]]["abi"])]:
+            j, n = r.choice([x for x in self.fam_pool if (not self.abi_ctx or self.families[x[0]]["abi"])])
             return T("{fam%d}" % j, tags={"nested-family"}, depth=1)
         sub = lambda **kw: self.rand_type(depth + 1, allow_pool, allow_fam, need_intro)
         k = r.randrange(18)
@@ -289,6 +290,9 @@ class Gen:
             m.append("        t = t.saturating_add(self.%s.claim(limit));" % acc(f, i))
         m.append("        t")
         m.append("    }")
+        m.append("    fn valid_bits(&self) -> bool {")
+        m.append("        true" + "".join(" && self.%s.valid_bits()" % acc(f, i) for i, f in mem))
+        m.append("    }")
         m.append("}")
         return def_text, "\n".join(m)
 
@@ -382,6 +386,26 @@ class Gen:
                 pat = "%s::%s { %s }" % (name, v["name"], ", ".join(("%s: x%d" % (f["name"], i)) if f.get("kind", "normal") == "normal" else ("%s: _" % f["name"]) for i, f in enumerate(v["fields"])))
             body = " ".join("t = t.saturating_add(x%d.claim(limit));" % i for i, f in mem)
             m.append("            %s => { let mut t: u128 = 0; %s t }" % (pat, body))
+        m.append("        }")
+        m.append("    }")
+        m.append("    fn valid_bits(&self) -> bool {")
+        tagty = enum_tag_type(repr_attr)
+        if tagty and variants:
+            allowed = ", ".join("%d" % (v["discr"] if v.get("discr") is not None else vi) for vi, v in enumerate(variants))
+            m.append("        if std::mem::size_of::<Self>() >= std::mem::size_of::<%s>() {" % tagty)
+            m.append("            let tag = unsafe { std::ptr::read_volatile(self as *const Self as *const %s) } as i128;" % tagty)
+            m.append("            if ![%s].contains(&tag) { return false; }" % ", ".join("%si128" % x.strip() for x in allowed.split(",")))
+            m.append("        }")
+        m.append("        match self {")
+        for v in variants:
+            mem = [(i, f) for i, f in enumerate(v["fields"]) if f.get("kind", "normal") == "normal"]
+            if v["style"] == "unit":
+                pat = "%s::%s" % (name, v["name"])
+            elif v["style"] == "tuple":
+                pat = "%s::%s(%s)" % (name, v["name"], ", ".join(("x%d" % i) if f.get("kind", "normal") == "normal" else "_" for i, f in enumerate(v["fields"])))
+            else:
+                pat = "%s::%s { %s }" % (name, v["name"], ", ".join(("%s: x%d" % (f["name"], i)) if f.get("kind", "normal") == "normal" else ("%s: _" % f["name"]) for i, f in enumerate(v["fields"])))
+            m.append("            %s => true%s," % (pat, "".join(" && x%d.valid_bits()" % i for i, f in mem)))
         m.append("        }")
         m.append("    }")
         m.append("}")
@@ -667,6 +691,7 @@ class Gen:
 
     def family(self, j, abi_only, packed=False, enum=False):
         r = self.rng
+        self.abi_ctx = abi_only
         nver = r.choice([2, 3, 3, 4, 5])
         edits_log = []
         defs = []
@@ -776,6 +801,7 @@ class Gen:
             defs.append(copy.deepcopy(cur))
         fam = dict(name=name, defs=defs, edits=edits_log, abi=abi_only, packed=packed, enum=enum)
         self.families.append(fam)
+        self.abi_ctx = False
         if not abi_only or True:
             self.fam_pool.append((j, len(defs)))
 
@@ -860,6 +886,14 @@ RETYPE = {
     "u64": [("String", "ToStr")],
     "String": [("u32", "StrLen"), ("Option<String>", "WrapSome")],
 }
+
+def enum_tag_type(repr_attr):
+    if repr_attr:
+        for part in repr_attr.split(","):
+            p = part.strip()
+            if p in ("u8", "i8", "u16", "i16", "u32", "i32"):
+                return p
+    return None
 
 def enum_width(repr_attr, nvariants):
     if repr_attr:
